@@ -3,15 +3,37 @@
 // Contracts for package graph, checked by /verif/govc. Comment-only; compiled only under the build tag "verif".
 package graph
 
+// C10: HIGHER_CONSISTENCY bypasses the query cache. C11: a cached response is served only if it was stored strictly
+// after the last invalidation time carried by the request. C08: only cycle-free, error-free results are stored, under
+// the key built from this request.
 //@ func (*CachedCheckResolver).ResolveCheck(c, ctx, req) (res, err)
-//@   property C10
+//@   property C10 C11 C08
 //@   option nosafety
+//@   option stable req
 //@   requires c != nil && req != nil && c.delegate != nil && c.cache != nil
 //@   ensures @higherBypass old(req.Consistency) == openfgav1.ConsistencyPreference_HIGHER_CONSISTENCY ==> innerCalled && innerReq == req && err == innerErr && (innerErr == nil ==> res == innerRes)
+//@   ensures @servedOnlyIfValid !innerCalled && err == nil ==> looked && typeIs(cached, "*graph.CheckResponseCacheEntry") && ts(as(cached, "*graph.CheckResponseCacheEntry").LastModified) > ts(req.LastCacheInvalidationTime)
+//@   ensures @missDelegates innerCalled ==> err == innerErr && (innerErr == nil ==> res == innerRes)
 //@   monitor noCacheOnHigher
 //@     ghost innerCalled = false
-//@     ghost innerRes ref = nil
+//@     ghost innerRes *graph.ResolveCheckResponse = nil
 //@     ghost innerErr error = nil
 //@     ghost innerReq ref = nil
+//@     ghost looked = false
+//@     ghost cached iface = nil
+//@     ghost builtKey S_keys.Key = builtKey
+//@     ghost keyOK = false
+//@     after call storage.CheckCacheKey args a, b, c2, d, e returning k : builtKey = k ; keyOK = a == req.GetStoreID() && b == req.GetTupleKey().GetObject() && c2 == req.GetTupleKey().GetRelation() && d == req.GetTupleKey().GetUser() && e == req.GetInvariantCacheKey()
 //@     after call graph.CheckResolver.ResolveCheck args _, _, a_req returning r, e : innerCalled = true ; innerRes = r ; innerErr = e ; innerReq = a_req
-//@     before call storage.InMemoryCache.Get : assert req.Consistency != openfgav1.ConsistencyPreference_HIGHER_CONSISTENCY
+//@     before call storage.InMemoryCache.Get args _, k : assert req.Consistency != openfgav1.ConsistencyPreference_HIGHER_CONSISTENCY && keyOK && k == builtKey
+//@     after call storage.InMemoryCache.Get args _, k returning v : looked = true ; cached = v
+//@     before call storage.InMemoryCache.Set args _, k, v, ttl : assert innerCalled && innerErr == nil && !innerRes.GetCycleDetected() && keyOK && k == builtKey
+
+// every answer-relevant field of a request survives cloning (sub-problem requests carry the parent's consistency,
+// invalidation time, context, contextual tuples, model and store)
+//@ func (*ResolveCheckRequest).clone(r) (res)
+//@   property C11 C10 C08
+//@   option nosafety
+//@   modifies nothing
+//@   requires r != nil
+//@   ensures @fields res != nil && res.StoreID == r.StoreID && res.AuthorizationModelID == r.AuthorizationModelID && res.ContextualTuples == r.ContextualTuples && res.Context == r.Context && res.Consistency == r.Consistency && res.LastCacheInvalidationTime == r.LastCacheInvalidationTime && res.invariantCacheKey == r.invariantCacheKey && res.objectType == r.objectType && res.userType == r.userType
